@@ -188,6 +188,15 @@ def reference(spec, acc):
     return idx, sem_t, sem_c
 
 
+def call_under_default_limit(spec, fn):
+    """Library calls run under the interpreter's default recursion limit whenever the tree is shallow enough
+    for a recursive traversal to fit into it."""
+    from .. import refdefs
+    shallow = refdefs.depth(spec) < 150
+    with env.library_recursion_limit(shallow):
+        return fn()
+
+
 def run(desc, acc, judge, prop, op_factory=None):
     """judge(acc, source, spec, model, idx, sem_tree, sem_ctc, tags, cls, payload, op) performs the property's oracle."""
     for k, (source, spec) in enumerate(cases(desc)):
